@@ -237,6 +237,23 @@ impl FailSafe {
         // response can complete.
         sessions.remove_pase(expire_sess_id);
 
+        // Likewise for the operational (CASE) sessions established on a fabric that
+        // ended up removed by the rollback (the commissioner connects over CASE before
+        // `CommissioningComplete`): nothing bound to the fabric may outlive it - its local
+        // index is handed out again to the next fabric. The session that triggered the
+        // expiry, if it is one of them, is only marked as expired, so that the response
+        // can still be sent.
+        if let Some(fab_idx) = removed_fabric {
+            let expire_sess_id = expire_sess_id.filter(|id| {
+                sessions
+                    .get(*id)
+                    .map(|sess| sess.get_local_fabric_idx() == fab_idx.get())
+                    .unwrap_or(false)
+            });
+
+            sessions.remove_for_fabric(fab_idx, expire_sess_id);
+        }
+
         self.state = State::Idle;
         self.breadcrumb = 0;
 
